@@ -245,6 +245,13 @@ class Controller:
 
 # ------------------------------------------------------------------------------------------------
 # strategies
+def nonpreemptive(ctl, en):
+  """Keeps running the current thread while it can move; otherwise the enabled thread with the lowest index."""
+  if ctl.current in en:
+    return ctl.current
+  return min(en, key=lambda w: w.idx)
+
+
 def replay_strategy(decisions, then=None):
   """Follows a recorded decision list; when it runs out (or diverges) falls back to `then` (default: lowest tid)."""
   it = iter(decisions)
